@@ -161,23 +161,38 @@ func checkC11(w *World, r *Report) {
 			r.Undecided("R11.2", key, "-", "anchor unresolved")
 			continue
 		}
-		info := w.InfoOf(fd)
 		var cands []types.Object
-		ast.Inspect(fd.Body, func(x ast.Node) bool {
-			cl, ok := x.(*ast.CompositeLit)
-			if !ok {
+		scanLit := func(fd2 *ast.FuncDecl) {
+			info := w.InfoOf(fd2)
+			ast.Inspect(fd2.Body, func(x ast.Node) bool {
+				cl, ok := x.(*ast.CompositeLit)
+				if !ok {
+					return true
+				}
+				if sl, ok := info.TypeOf(cl).(*types.Slice); !ok || sl.Elem().String() != modPath+"/internal/util/enc.Encoder" {
+					return true
+				}
+				for _, el := range cl.Elts {
+					if obj := usedObj(info, el); obj != nil {
+						cands = append(cands, obj)
+					}
+				}
 				return true
-			}
-			if sl, ok := info.TypeOf(cl).(*types.Slice); !ok || sl.Elem().String() != modPath+"/internal/util/enc.Encoder" {
-				return true
-			}
-			for _, el := range cl.Elts {
-				if obj := usedObj(info, el); obj != nil {
-					cands = append(cands, obj)
+			})
+		}
+		scanLit(fd)
+		if len(cands) == 0 {
+			// the list may live in a helper of the detection function
+			if sfn := w.SSAFunc(methodOf(cdc, name)); sfn != nil {
+				for _, g := range staticCone(sfn, 2) {
+					if o := fnObj(g); o != nil && g != sfn {
+						if fd2 := w.Decl(o); fd2 != nil && len(cands) == 0 {
+							scanLit(fd2)
+						}
+					}
 				}
 			}
-			return true
-		})
+		}
 		var problems []string
 		for _, c := range cands {
 			if !registry[c] {
@@ -236,6 +251,16 @@ func checkC11(w *World, r *Report) {
 				ord++
 				bad := ""
 				npaths := 0
+				// the choice may be delegated: Encoder = chooser(); the chooser returns a fall-back codec or a
+				// candidate on a path where its own trial (all patterns probed clean) returned nil
+				if hc, isCall := st.Val.(*ssa.Call); isCall {
+					if h := hc.Call.StaticCallee(); h != nil && inModule(h) && len(h.Blocks) > 0 {
+						why, nfall := c11ChooserOK(w, h, probeM, byGlobal)
+						nfb++
+						r.Check(why == "", "R11.5", key, w.Pos(st.Pos()), fmt.Sprintf("%s returns a probed candidate only where its trial returned nil (%d fall-back return(s) are case-fold safe)", ssaFuncKey(h), nfall), why)
+						return
+					}
+				}
 				enumPaths(fn, nil, nil, func(x ssa.Instruction) bool { return x == in }, func(e pathExit) {
 					if e.Stop == nil {
 						return
@@ -384,6 +409,57 @@ func checkC11(w *World, r *Report) {
 				}
 				// s2.Val = q; must be dominated by SendQueryTypeTest(q, ...) == nil
 				okq := false
+				// ... or the round of probes lives in a helper: everything it returns is a type whose probe
+				// succeeded in that helper, or the best-so-far value handed in (which is this same variable)
+				if hc, isCall := s2.Val.(*ssa.Call); isCall {
+					if h := hc.Call.StaticCallee(); h != nil && inModule(h) && len(h.Blocks) > 0 {
+						okAll, nret := true, 0
+						enumPaths(h, nil, nil, nil, func(e pathExit) {
+							ret, isRet := e.Last.(*ssa.Return)
+							if !isRet || len(ret.Results) != 1 {
+								return
+							}
+							nret++
+							rv := e.State.Resolve(ret.Results[0])
+							if prm, isP := rv.(*ssa.Parameter); isP {
+								// passthrough of the caller's current value
+								for i, q := range h.Params {
+									if q == prm && i < len(hc.Call.Args) {
+										if u, ok := hc.Call.Args[i].(*ssa.UnOp); ok && u.X == ssa.Value(al) {
+											return
+										}
+									}
+								}
+								okAll = false
+								return
+							}
+							if z, isC := constIntVal(rv); isC && z == 0 {
+								return
+							}
+							for v, t := range e.State.Facts {
+								x, eqNil, ok := nilTest(v)
+								if !ok || t != eqNil {
+									continue
+								}
+								pc, ok := x.(*ssa.Call)
+								if !ok || sCallee(pc) != probe || len(pc.Call.Args) < 2 {
+									continue
+								}
+								for _, r1 := range provenance(pc.Call.Args[1], provOpts{}) {
+									for _, r2 := range provenance(rv, provOpts{}) {
+										if r1 == r2 {
+											return
+										}
+									}
+								}
+							}
+							okAll = false
+						})
+						if okAll && nret > 0 {
+							okq = true
+						}
+					}
+				}
 				for _, c := range callsIn(fn) {
 					call, isCall := c.(*ssa.Call)
 					if !isCall || sCallee(c) != probe || len(call.Call.Args) < 2 {
@@ -677,4 +753,117 @@ func c11DerivedMtu(w *World, r *Report) {
 		return
 	}
 	r.Check(bad == "" && nsucc > 0, "R11.7", key, w.Pos(hs.Pos()), fmt.Sprintf("%d successful path(s): the upstream fragment size is recomputed after the last codec-changing step", nsucc), bad)
+}
+
+// c11TrialClean: t probes patterns of one codec; it returns nil only if every probe execution reported no
+// error (from each probe call, the next probe or a nil return is reached only through err == nil).
+func c11TrialClean(t *ssa.Function, probeM *types.Func) bool {
+	nprobe := 0
+	ok := true
+	for _, pc := range callsIn(t) {
+		pcall, isCall := pc.(*ssa.Call)
+		if !isCall || sCallee(pc) != probeM {
+			continue
+		}
+		nprobe++
+		done := enumPaths(t, pcall, nil, func(x ssa.Instruction) bool { return x == ssa.Instruction(pcall) }, func(e pathExit) {
+			clean := false
+			for v, tv := range e.State.Facts {
+				x, eqNil, isNil := nilTest(v)
+				if isNil && x == ssa.Value(pcall) && tv == eqNil {
+					clean = true
+				}
+			}
+			if e.Stop != nil {
+				if !clean {
+					ok = false
+				}
+				return
+			}
+			ret, isRet := e.Last.(*ssa.Return)
+			if !isRet || len(ret.Results) == 0 {
+				return
+			}
+			rv := e.State.Resolve(ret.Results[len(ret.Results)-1])
+			if isConstNil(rv) && !clean {
+				ok = false
+			}
+		})
+		if !done {
+			ok = false
+		}
+	}
+	return ok && nprobe > 0
+}
+
+// c11ChooserOK: every return of the chooser is a package-level fall-back codec that survives case folding, or
+// a value c returned on a path where trial(c) == nil (trial clean, see above) or probe facts hold directly.
+func c11ChooserOK(w *World, h *ssa.Function, probeM *types.Func, byGlobal map[types.Object]codecInfo) (string, int) {
+	why := ""
+	nfall := 0
+	nret := 0
+	done := enumPaths(h, nil, nil, nil, func(e pathExit) {
+		ret, isRet := e.Last.(*ssa.Return)
+		if !isRet || len(ret.Results) != 1 || why != "" {
+			return
+		}
+		nret++
+		rv := e.State.Resolve(ret.Results[0])
+		// fall-back: a package-level codec
+		var g *ssa.Global
+		for _, root := range provenance(rv, provOpts{}) {
+			if u, ok := root.(*ssa.UnOp); ok {
+				if gg, ok := u.X.(*ssa.Global); ok {
+					g = gg
+				}
+			}
+		}
+		if g != nil {
+			ci, ok := byGlobal[g.Object()]
+			if !ok || ci.Alphabet == "" || !caseFoldInjective(ci.Alphabet) {
+				why = fmt.Sprintf("%s: %s is returned without a trial and is not known to survive case folding", w.Pos(ret.Pos()), g.Name())
+			}
+			nfall++
+			return
+		}
+		// a candidate: needs trial(rv) == nil on this path
+		for v, tv := range e.State.Facts {
+			x, eqNil, isNil := nilTest(v)
+			if !isNil || tv != eqNil {
+				continue
+			}
+			tc, ok := x.(*ssa.Call)
+			if !ok {
+				continue
+			}
+			t := tc.Call.StaticCallee()
+			if t == nil || !inModule(t) {
+				continue
+			}
+			passes := false
+			for _, a := range tc.Call.Args {
+				if a == rv {
+					passes = true
+				}
+				for _, r1 := range provenance(a, provOpts{}) {
+					for _, r2 := range provenance(rv, provOpts{}) {
+						if r1 == r2 {
+							passes = true
+						}
+					}
+				}
+			}
+			if passes && c11TrialClean(t, probeM) {
+				return
+			}
+		}
+		why = fmt.Sprintf("%s: a candidate codec is returned on a path where its trial was not found to have returned nil (or the trial does not require every pattern's probe to succeed): the handshake then reports success with a codec the path does not carry", w.Pos(ret.Pos()))
+	})
+	if !done {
+		return "path budget exceeded in " + ssaFuncKey(h), nfall
+	}
+	if nret == 0 {
+		return ssaFuncKey(h) + " has no return", nfall
+	}
+	return why, nfall
 }
